@@ -784,6 +784,8 @@ theorem Impl.appendBytes_ok {E : Impl.Env} {l l' : Impl.SList} {o d : Bytes}
   rename_i h2
   split at h
   · simp at h
+  split at h
+  · simp at h
   rename_i h3
   simp only [Except.ok.injEq] at h
   refine ⟨?_, h2, ?_, h.symm⟩
@@ -799,6 +801,7 @@ theorem Impl.appendBytes_error {E : Impl.Env} {l : Impl.SList} {o d : Bytes} {e 
     (h : l.appendBytes E o d = .error e) :
     (⟨o, E.norm l.type d⟩ : Impl.SData) ∈ l.sigs ∨
     (l.type = Impl.guidSha256 ∧ (E.norm l.type d).length ≠ 32) ∨
+    (l.type = Impl.guidExternal ∧ (E.norm l.type d).length ≠ 1) ∨
     (l.sigs ≠ [] ∧ (E.norm l.type d).length + 16 ≠ l.size) := by
   simp only [Impl.SList.appendBytes] at h
   split at h
@@ -806,7 +809,9 @@ theorem Impl.appendBytes_error {E : Impl.Env} {l : Impl.SList} {o d : Bytes} {e 
   split at h
   · rename_i h2; exact Or.inr (Or.inl h2)
   split at h
-  · rename_i h3; exact Or.inr (Or.inr h3)
+  · rename_i h2; exact Or.inr (Or.inr (Or.inl h2))
+  split at h
+  · rename_i h3; exact Or.inr (Or.inr (Or.inr h3))
   · simp at h
 
 theorem Impl.appendBytes_sha_error {E : Impl.Env} {l : Impl.SList} {o d : Bytes}
@@ -816,6 +821,34 @@ theorem Impl.appendBytes_sha_error {E : Impl.Env} {l : Impl.SList} {o d : Bytes}
   split
   · exact ⟨_, rfl⟩
   · rw [if_pos ⟨ht, hl⟩]; exact ⟨_, rfl⟩
+
+/-- F37 repair: an externally-managed entry that is not one byte is refused by the list -/
+theorem Impl.appendBytes_ext_error {E : Impl.Env} {l : Impl.SList} {o d : Bytes}
+    (ht : l.type = Impl.guidExternal) (hl : (E.norm l.type d).length ≠ 1) :
+    ∃ e, l.appendBytes E o d = .error e := by
+  simp only [Impl.SList.appendBytes]
+  split
+  · exact ⟨_, rfl⟩
+  · split
+    · exact ⟨_, rfl⟩
+    · rw [if_pos ⟨ht, hl⟩]; exact ⟨_, rfl⟩
+
+/-- what a successful `AppendBytes` lets in has the size the specification fixes for its type -/
+theorem Impl.appendBytes_ok_sized {E : Impl.Env} {l l' : Impl.SList} {o d : Bytes}
+    (h : l.appendBytes E o d = .ok l') :
+    (l.type = Impl.guidSha256 → (E.norm l.type d).length = 32) ∧
+    (l.type = Impl.guidExternal → (E.norm l.type d).length = 1) := by
+  constructor
+  · intro ht
+    apply Decidable.byContradiction
+    intro hl
+    obtain ⟨e, he⟩ := Impl.appendBytes_sha_error (E := E) (o := o) ht hl
+    rw [he] at h; nomatch h
+  · intro ht
+    apply Decidable.byContradiction
+    intro hl
+    obtain ⟨e, he⟩ := Impl.appendBytes_ext_error (E := E) (o := o) ht hl
+    rw [he] at h; nomatch h
 
 theorem Impl.appendBytes_inv {E : Impl.Env} {l l' : Impl.SList} {o d : Bytes}
     (hty : l.type.length = 16) (hH : l.hdrSize = 0) (hhdr : l.hdr = [])
@@ -921,17 +954,21 @@ theorem Impl.appendInto_inv {E : Impl.Env} {t o d : Bytes} {db db' : Impl.Db}
 
 theorem Impl.appendInto_error {E : Impl.Env} {t o d : Bytes} {db : Impl.Db} {e : Impl.AErr}
     (hd : E.norm t d = d) (h : Impl.appendInto E t o d db = .error e) :
-    (t, o, d) ∈ Impl.abs db ∨ (t = Impl.guidSha256 ∧ d.length ≠ 32) := by
+    (t, o, d) ∈ Impl.abs db ∨ (t = Impl.guidSha256 ∧ d.length ≠ 32) ∨
+      (t = Impl.guidExternal ∧ d.length ≠ 1) := by
   induction db with
   | nil =>
     simp only [Impl.appendInto] at h
     split at h
     · simp at h
     · rename_i e' h1
-      rcases Impl.appendBytes_error h1 with h2 | h2 | h2
+      rcases Impl.appendBytes_error h1 with h2 | h2 | h2 | h2
       · simp [Impl.newList] at h2
-      · right
+      · right; left
         have h2' : t = Impl.guidSha256 ∧ (E.norm t d).length ≠ 32 := h2
+        rw [hd] at h2'; exact h2'
+      · right; right
+        have h2' : t = Impl.guidExternal ∧ (E.norm t d).length ≠ 1 := h2
         rw [hd] at h2'; exact h2'
       · simp [Impl.newList] at h2
   | cons l ls ih =>
@@ -941,9 +978,10 @@ theorem Impl.appendInto_error {E : Impl.Env} {t o d : Bytes} {db : Impl.Db} {e :
       split at h
       · simp at h
       · rename_i e' h1
-        rcases Impl.appendBytes_error h1 with h2 | h2 | h2
+        rcases Impl.appendBytes_error h1 with h2 | h2 | h2 | h2
         · rw [hc.1, hd] at h2; exact Or.inl (Impl.mem_abs_cons.mpr (Or.inl ⟨hc.1, h2⟩))
-        · rw [hc.1, hd] at h2; exact Or.inr h2
+        · rw [hc.1, hd] at h2; exact Or.inr (Or.inl h2)
+        · rw [hc.1, hd] at h2; exact Or.inr (Or.inr h2)
         · rw [hc.1, hd] at h2; exact absurd hc.2.symm h2.2
     · split at h
       · simp at h
@@ -971,6 +1009,25 @@ theorem Impl.appendInto_sha_error {E : Impl.Env} {t o d : Bytes} (db : Impl.Db)
     · obtain ⟨e, he⟩ := ih
       rw [he]; exact ⟨e, rfl⟩
 
+/-- F37 repair: whatever lists are present, externally-managed data that is not one byte is refused -/
+theorem Impl.appendInto_ext_error {E : Impl.Env} {t o d : Bytes} (db : Impl.Db)
+    (hd : E.norm t d = d) (ht : t = Impl.guidExternal) (hl : d.length ≠ 1) :
+    ∃ e, Impl.appendInto E t o d db = .error e := by
+  induction db with
+  | nil =>
+    obtain ⟨e, he⟩ := Impl.appendBytes_ext_error (E := E) (l := Impl.newList t) (o := o) (d := d) ht
+      (by show (E.norm t d).length ≠ 1; rw [hd]; exact hl)
+    simp only [Impl.appendInto, he]; exact ⟨e, rfl⟩
+  | cons l ls ih =>
+    simp only [Impl.appendInto]
+    split
+    · rename_i hc
+      obtain ⟨e, he⟩ := Impl.appendBytes_ext_error (E := E) (l := l) (o := o) (d := d)
+        (hc.1.trans ht) (by rw [hc.1, hd]; exact hl)
+      rw [he]; exact ⟨e, rfl⟩
+    · obtain ⟨e, he⟩ := ih
+      rw [he]; exact ⟨e, rfl⟩
+
 theorem Impl.Db.append_ok {E : Impl.Env} {db db' : Impl.Db} {t o d : Bytes}
     (h : db.append E t o d = .ok db') :
     t ∈ Impl.schemes ∧ (t, o, E.norm t d) ∉ Impl.abs db ∧
@@ -989,7 +1046,8 @@ theorem Impl.Db.append_error_iff {E : Impl.Env} {db : Impl.Db} {t o d : Bytes}
     (hidem : E.norm t (E.norm t d) = E.norm t d) :
     (∃ e, db.append E t o d = .error e) ↔
       (t ∉ Impl.schemes ∨ (t, o, E.norm t d) ∈ Impl.abs db ∨
-        (t = Impl.guidSha256 ∧ (E.norm t d).length ≠ 32)) := by
+        (t = Impl.guidSha256 ∧ (E.norm t d).length ≠ 32) ∨
+        (t = Impl.guidExternal ∧ (E.norm t d).length ≠ 1)) := by
   unfold Impl.Db.append
   by_cases h1 : t ∈ Impl.schemes
   · have h1' : (!Impl.schemes.contains t) = false := by simpa using h1
@@ -1009,10 +1067,11 @@ theorem Impl.Db.append_error_iff {E : Impl.Env} {db : Impl.Db} {t o d : Bytes}
         rcases Impl.appendInto_error hidem he with h3 | h3
         · exact absurd h3 h2
         · exact Or.inr (Or.inr h3)
-      · rintro (h3 | h3 | h3)
+      · rintro (h3 | h3 | h3 | h3)
         · exact absurd h1 h3
         · exact absurd h3 h2
         · exact Impl.appendInto_sha_error db hidem h3.1 h3.2
+        · exact Impl.appendInto_ext_error db hidem h3.1 h3.2
   · have h1' : (!Impl.schemes.contains t) = true := by simpa using h1
     rw [h1']
     exact ⟨fun _ => Or.inl h1, fun _ => ⟨_, rfl⟩⟩
@@ -1203,6 +1262,293 @@ theorem Impl.SList.Inv.size_lt {l : Impl.SList} (h : l.Inv) (b1 : l.listSize < 2
   | cons x xs =>
     rw [hsg, List.length_cons, Nat.succ_mul] at hLS
     omega
+
+/-! ### the per-type size rule (F37) and the databases built through the library's own operations -/
+
+/-- the list types `ReadSignatureList` decodes -/
+def Impl.HandledType (t : Bytes) : Prop :=
+  t = Impl.guidX509 ∨ t = Impl.guidSha256 ∨ t = Impl.guidExternal
+
+/-- the list's signature size is the one the specification fixes for its type (SHA-256: 16+32,
+    externally managed: 16+1; none for X.509), and a list *without entries* carries a size field that
+    fits the wire (a decoded one does; `Append`, `Remove` and a list built through `AppendBytes` never
+    hold such a list) -/
+def Impl.SList.Sized (l : Impl.SList) : Prop :=
+  (l.type = Impl.guidSha256 → l.size = 48) ∧ (l.type = Impl.guidExternal → l.size = 17) ∧
+  (l.sigs = [] → l.size < 2^32)
+
+def Impl.Db.Sized (db : Impl.Db) : Prop := ∀ l ∈ db, l.Sized
+
+theorem Impl.handled_ext {s : Nat} (hh : Impl.handled Impl.guidExternal 0 s = true) : s = 17 := by
+  unfold Impl.handled at hh
+  rw [if_neg Impl.guidExternal_ne_guidX509, if_neg Impl.guidExternal_ne_guidSha256, if_pos rfl] at hh
+  simpa using hh
+
+theorem Impl.handled_type {ty : Bytes} {h s : Nat} (hh : Impl.handled ty h s = true) :
+    Impl.HandledType ty := by
+  unfold Impl.handled at hh
+  split at hh
+  · rename_i h1; exact Or.inl h1
+  · split at hh
+    · rename_i h2; exact Or.inr (Or.inl h2)
+    · split at hh
+      · rename_i h3; exact Or.inr (Or.inr h3)
+      · simp at hh
+
+/-- what the decoder returns obeys the size rule -/
+theorem Impl.SList.Wire.sized {l : Impl.SList} (h : l.Wire) : l.Sized := by
+  obtain ⟨_, _, hs, hh⟩ := h
+  refine ⟨fun ht => ?_, fun ht => ?_, fun _ => hs⟩
+  · rw [ht] at hh; exact Impl.handled_sha hh
+  · rw [ht] at hh; exact Impl.handled_ext hh
+
+/-- a list of a handled type that obeys the size rule passes the per-type switch of the decoder -/
+theorem Impl.SList.Sized.handled {l : Impl.SList} (h : l.Sized) (ht : Impl.HandledType l.type) :
+    Impl.handled l.type 0 l.size = true := by
+  unfold Impl.handled
+  rcases ht with ht | ht | ht
+  · rw [if_pos ht]; simp
+  · have hs := h.1 ht
+    rw [ht, if_neg Impl.guidSha256_ne_guidX509, if_pos rfl, hs]; simp
+  · have hs := h.2.1 ht
+    rw [ht, if_neg Impl.guidExternal_ne_guidX509, if_neg Impl.guidExternal_ne_guidSha256, if_pos rfl, hs]
+    simp
+
+/-- F37 repair: whatever list it started from, the result of a successful `AppendBytes` obeys the
+    size rule (before the repair an externally-managed list of any size could be built) -/
+theorem Impl.appendBytes_sized {E : Impl.Env} {l l' : Impl.SList} {o d : Bytes}
+    (h : l.appendBytes E o d = .ok l') : l'.Sized := by
+  obtain ⟨h1, h2⟩ := Impl.appendBytes_ok_sized h
+  obtain ⟨_, _, _, e⟩ := Impl.appendBytes_ok h
+  subst e
+  refine ⟨fun ht => ?_, fun ht => ?_, fun hn => ?_⟩
+  · show (E.norm l.type d).length + 16 = 48
+    rw [h1 ht]
+  · show (E.norm l.type d).length + 16 = 17
+    rw [h2 ht]
+  · have hn' : l.sigs ++ [(⟨o, E.norm l.type d⟩ : Impl.SData)] = [] := hn
+    simp at hn'
+
+theorem Impl.appendBytes_type {E : Impl.Env} {l l' : Impl.SList} {o d : Bytes}
+    (h : l.appendBytes E o d = .ok l') : l'.type = l.type := by
+  obtain ⟨_, _, _, e⟩ := Impl.appendBytes_ok h
+  rw [e]
+
+theorem Impl.appendInto_sized {E : Impl.Env} {t o d : Bytes} {db db' : Impl.Db}
+    (hs : Impl.Db.Sized db) (h : Impl.appendInto E t o d db = .ok db') : Impl.Db.Sized db' := by
+  induction db generalizing db' with
+  | nil =>
+    simp only [Impl.appendInto] at h
+    split at h
+    · rename_i l' h1
+      simp only [Except.ok.injEq] at h; subst h
+      intro x hx
+      simp only [List.mem_singleton] at hx; subst hx
+      exact Impl.appendBytes_sized h1
+    · simp at h
+  | cons l ls ih =>
+    have hl : l.Sized := hs l (by simp)
+    have hls : Impl.Db.Sized ls := fun x hx => hs x (by simp [hx])
+    simp only [Impl.appendInto] at h
+    split at h
+    · split at h
+      · rename_i l' h1
+        simp only [Except.ok.injEq] at h; subst h
+        intro x hx
+        rcases List.mem_cons.mp hx with rfl | hx
+        · exact Impl.appendBytes_sized h1
+        · exact hls x hx
+      · simp at h
+    · split at h
+      · rename_i ls' h1
+        simp only [Except.ok.injEq] at h; subst h
+        intro x hx
+        rcases List.mem_cons.mp hx with rfl | hx
+        · exact hl
+        · exact ih hls h1 x hx
+      · simp at h
+
+/-- `Append` adds no list of another type than the one appended -/
+theorem Impl.appendInto_types {P : Bytes → Prop} {E : Impl.Env} {t o d : Bytes} {db db' : Impl.Db}
+    (hp : ∀ l ∈ db, P l.type) (ht : P t) (h : Impl.appendInto E t o d db = .ok db') :
+    ∀ l ∈ db', P l.type := by
+  induction db generalizing db' with
+  | nil =>
+    simp only [Impl.appendInto] at h
+    split at h
+    · rename_i l' h1
+      simp only [Except.ok.injEq] at h; subst h
+      intro x hx
+      simp only [List.mem_singleton] at hx; subst hx
+      rw [Impl.appendBytes_type h1]; exact ht
+    · simp at h
+  | cons l ls ih =>
+    simp only [Impl.appendInto] at h
+    split at h
+    · split at h
+      · rename_i l' h1
+        simp only [Except.ok.injEq] at h; subst h
+        intro x hx
+        rcases List.mem_cons.mp hx with rfl | hx
+        · rw [Impl.appendBytes_type h1]; exact hp l (by simp)
+        · exact hp x (by simp [hx])
+      · simp at h
+    · split at h
+      · rename_i ls' h1
+        simp only [Except.ok.injEq] at h; subst h
+        intro x hx
+        rcases List.mem_cons.mp hx with rfl | hx
+        · exact hp _ (by simp)
+        · exact ih (fun y hy => hp y (by simp [hy])) h1 x hx
+      · simp at h
+
+/-- the lists of the result of `Remove` are lists of the argument, one of them possibly with one
+    entry less (and then still not empty: `Impl.erase_inv`) -/
+theorem Impl.removeFrom_mem {t o d : Bytes} {db db' : Impl.Db} {b : Bool}
+    (h : Impl.removeFrom t o d db b = .ok db') :
+    ∀ x ∈ db', x ∈ db ∨ ∃ l ∈ db, (⟨o, d⟩ : Impl.SData) ∈ l.sigs ∧ l.sigs.length ≠ 1 ∧
+      x = { l with sigs := l.sigs.erase ⟨o, d⟩, listSize := l.listSize - l.size } := by
+  induction db generalizing b db' with
+  | nil => simp [Impl.removeFrom] at h
+  | cons l ls ih =>
+    simp only [Impl.removeFrom] at h
+    split at h
+    · split at h
+      · rename_i hhas
+        have hmem : (⟨o, d⟩ : Impl.SData) ∈ l.sigs := (Impl.SList.has_iff l o d).mp hhas
+        split at h
+        · simp only [Except.ok.injEq] at h; subst h
+          exact fun x hx => Or.inl (List.mem_cons_of_mem _ hx)
+        · rename_i hlen
+          simp only [Except.ok.injEq] at h; subst h
+          intro x hx
+          rcases List.mem_cons.mp hx with rfl | hx
+          · exact Or.inr ⟨l, by simp, hmem, hlen, rfl⟩
+          · exact Or.inl (List.mem_cons_of_mem _ hx)
+      · split at h
+        · rename_i ls' h1
+          simp only [Except.ok.injEq] at h; subst h
+          intro x hx
+          rcases List.mem_cons.mp hx with rfl | hx
+          · exact Or.inl (by simp)
+          · rcases ih h1 x hx with h2 | ⟨y, hy, h2⟩
+            · exact Or.inl (List.mem_cons_of_mem _ h2)
+            · exact Or.inr ⟨y, List.mem_cons_of_mem _ hy, h2⟩
+        · simp at h
+    · split at h
+      · rename_i ls' h1
+        simp only [Except.ok.injEq] at h; subst h
+        intro x hx
+        rcases List.mem_cons.mp hx with rfl | hx
+        · exact Or.inl (by simp)
+        · rcases ih h1 x hx with h2 | ⟨y, hy, h2⟩
+          · exact Or.inl (List.mem_cons_of_mem _ h2)
+          · exact Or.inr ⟨y, List.mem_cons_of_mem _ hy, h2⟩
+      · simp at h
+
+theorem Impl.removeFrom_sized {t o d : Bytes} {db db' : Impl.Db} {b : Bool}
+    (hinv : Impl.Db.Inv db) (hs : Impl.Db.Sized db) (h : Impl.removeFrom t o d db b = .ok db') :
+    Impl.Db.Sized db' := by
+  intro x hx
+  rcases Impl.removeFrom_mem h x hx with h1 | ⟨l, hl, hmem, hlen, rfl⟩
+  · exact hs x h1
+  · obtain ⟨s1, s2, _⟩ := hs l hl
+    exact ⟨s1, s2, fun hn => absurd hn (Impl.erase_inv (hinv l hl) hmem hlen).2⟩
+
+theorem Impl.removeFrom_types {P : Bytes → Prop} {t o d : Bytes} {db db' : Impl.Db} {b : Bool}
+    (hp : ∀ l ∈ db, P l.type) (h : Impl.removeFrom t o d db b = .ok db') : ∀ l ∈ db', P l.type := by
+  intro x hx
+  rcases Impl.removeFrom_mem h x hx with h1 | ⟨l, hl, _, _, rfl⟩
+  · exact hp x h1
+  · exact hp l hl
+
+/-- a list built through the library's list-level API: `NewSignatureList` followed by at least one
+    successful `AppendBytes` (16-byte owners).  A list nothing was appended to is NOT among them: it
+    has signature size 0 (known finding F20). -/
+inductive Impl.ListBuilt (E : Impl.Env) : Impl.SList → Prop
+  | first {t o d : Bytes} {l : Impl.SList} : t.length = 16 → o.length = 16 →
+      (Impl.newList t).appendBytes E o d = .ok l → Impl.ListBuilt E l
+  | next {l l' : Impl.SList} {o d : Bytes} : Impl.ListBuilt E l → o.length = 16 →
+      l.appendBytes E o d = .ok l' → Impl.ListBuilt E l'
+
+theorem Impl.ListBuilt.inv {E : Impl.Env} {l : Impl.SList} (h : Impl.ListBuilt E l) : l.Inv := by
+  induction h with
+  | first ht ho ha =>
+    exact Impl.appendBytes_inv (l := Impl.newList _) ht rfl rfl (by simp [Impl.newList])
+      (by simp [Impl.newList]) (by simp [Impl.newList]) ho ha
+  | next _ ho ha ih =>
+    obtain ⟨hty, hH, hhdr, _, hLS, hs, hnd⟩ := ih
+    exact Impl.appendBytes_inv hty hH hhdr hLS hs hnd ho ha
+
+theorem Impl.ListBuilt.sized {E : Impl.Env} {l : Impl.SList} (h : Impl.ListBuilt E l) : l.Sized := by
+  cases h with
+  | first _ _ ha => exact Impl.appendBytes_sized ha
+  | next _ _ ha => exact Impl.appendBytes_sized ha
+
+/-- the databases built through the library's own operations over the signature types `T`: the
+    empty one or a decoded duplicate-free one, then `Append` of a type in `T` (16-byte owner),
+    `Remove`, and `AppendList` of a list of a type in `T` that was itself built through
+    `NewSignatureList` / `AppendBytes` -/
+inductive Impl.BuiltOver (E : Impl.Env) (T : Bytes → Prop) : Impl.Db → Prop
+  | empty : Impl.BuiltOver E T []
+  | decoded {bs : Bytes} {db : Impl.Db} :
+      Impl.readDb bs = some db → (∀ l ∈ db, l.sigs.Nodup) → (∀ l ∈ db, T l.type) →
+      Impl.BuiltOver E T db
+  | append {db db' : Impl.Db} {t o d : Bytes} :
+      Impl.BuiltOver E T db → o.length = 16 → T t → db.append E t o d = .ok db' →
+      Impl.BuiltOver E T db'
+  | remove {db db' : Impl.Db} {t o d : Bytes} :
+      Impl.BuiltOver E T db → db.remove t o d = .ok db' → Impl.BuiltOver E T db'
+  | appendList {db : Impl.Db} {l : Impl.SList} :
+      Impl.BuiltOver E T db → Impl.ListBuilt E l → T l.type → Impl.BuiltOver E T (db.appendList l)
+
+/-- they are among the reachable ones of C09 … -/
+theorem Impl.BuiltOver.reachable {E : Impl.Env} {T : Bytes → Prop} {db : Impl.Db}
+    (h : Impl.BuiltOver E T db) : Impl.Reachable E db := by
+  induction h with
+  | empty => exact .empty
+  | decoded hr hnd _ => exact .decoded hr hnd
+  | append _ ho _ ha ih => exact .append ih ho ha
+  | remove _ hr ih => exact .remove ih hr
+  | appendList _ hl _ ih => exact .appendList ih hl.inv
+
+/-- … every list of them obeys the size rule of its type … -/
+theorem Impl.BuiltOver.sized {E : Impl.Env} {T : Bytes → Prop} {db : Impl.Db}
+    (h : Impl.BuiltOver E T db) : Impl.Db.Sized db := by
+  induction h with
+  | empty => intro l hl; simp at hl
+  | decoded hr _ _ => exact fun l hl => ((Impl.readDb_ok hr).2 l hl).sized
+  | append _ _ _ ha ih => exact Impl.appendInto_sized ih (Impl.Db.append_ok ha).2.2
+  | remove hb hr ih => exact Impl.removeFrom_sized hb.reachable.inv_raw ih hr
+  | appendList _ hl _ ih =>
+    intro x hx
+    simp only [Impl.Db.appendList, List.mem_append, List.mem_singleton] at hx
+    rcases hx with hx | rfl
+    · exact ih x hx
+    · exact hl.sized
+
+/-- … and is of a type in `T` -/
+theorem Impl.BuiltOver.types {E : Impl.Env} {T : Bytes → Prop} {db : Impl.Db}
+    (h : Impl.BuiltOver E T db) : ∀ l ∈ db, T l.type := by
+  induction h with
+  | empty => intro l hl; simp at hl
+  | decoded _ _ ht => exact ht
+  | append _ _ ht ha ih => exact Impl.appendInto_types ih ht (Impl.Db.append_ok ha).2.2
+  | remove _ hr ih => exact Impl.removeFrom_types ih hr
+  | appendList _ _ ht ih =>
+    intro x hx
+    simp only [Impl.Db.appendList, List.mem_append, List.mem_singleton] at hx
+    rcases hx with hx | rfl
+    · exact ih x hx
+    · exact ht
+
+/-- a database that obeys the invariant and the size rule and whose `ListSize` fields fit 32 bits
+    is exactly what the decoder accepts -/
+theorem Impl.Db.wire_of_sized {db : Impl.Db} (hinv : Impl.Db.Inv db) (hs : Impl.Db.Sized db)
+    (ht : ∀ l ∈ db, Impl.HandledType l.type) (h32 : ∀ l ∈ db, l.listSize < 2^32) :
+    ∀ l ∈ db, l.Wire := fun l hl =>
+  ⟨(hinv l hl).canon, h32 l hl, (hinv l hl).size_lt (h32 l hl) (hs l hl).2.2,
+   (hs l hl).handled (ht l hl)⟩
 
 /-! ## concrete values for the non-vacuity examples in the property files -/
 namespace Ex
